@@ -108,6 +108,19 @@ impl<K: Eq + Hash + Clone> LruList<K> {
     }
   }
 
+  /// Updates the recorded cost of a tracked key in place (no reordering). Returns `false` if
+  /// the key is not tracked.
+  pub fn update_cost(&mut self, key: &K, cost: u64) -> bool {
+    if let Some(&index) = self.lookup.get(key) {
+      let old_cost = self.nodes[index].cost;
+      self.current_cost = self.current_cost.saturating_sub(old_cost) + cost;
+      self.nodes[index].cost = cost;
+      true
+    } else {
+      false
+    }
+  }
+
   pub fn move_to_front(&mut self, key: &K) {
     if let Some(&index) = self.lookup.get(key) {
       // Only move if it's not already the head.
